@@ -4,6 +4,7 @@ pub mod panics;
 pub mod pool;
 pub mod rng;
 pub mod shard;
+pub mod trace;
 
 #[derive(Clone, Copy, Debug, PartialEq, Eq)]
 pub enum Tier {
